@@ -122,7 +122,7 @@ def decl_tokens(text):
     does not matter.  Removed before comparison, as the statement allows: grouping parentheses (expressions are
     compared as trees elsewhere), the splitting of a long string literal into 'a' + 'b', and the spelling of a real
     literal (compared by value); the items of a CONSTANT block are separate declarations (the printer sorts them)"""
-    toks = [t for t in exprparse.tokenize(text)]
+    toks = [t for t in exprparse.tokenize(text, tolerant=True)]
     norm = []
     for k, v in toks:
         if k == "real":
